@@ -86,7 +86,14 @@ func (s *faultyStore) RoundTrip(r *http.Request) (*http.Response, error) {
 		return &http.Response{StatusCode: 500, Status: "500", Body: io.NopCloser(bytes.NewReader(nil)), Header: http.Header{}, Request: r}, nil
 	case mode == "truncate" && len(data) > 8:
 		s.sim.Fault("fetch-truncated")
-		data = data[:len(data)/2]
+		if url[len(url)-1]%2 == 1 {
+			// cut inside the closing end-of-stream marker: everything before
+			// it, the data batch included, decodes
+			data = data[:len(data)-1-int(url[len(url)-1]%7)]
+			s.sim.Fault("fetch-truncated-in-trailer")
+		} else {
+			data = data[:len(data)/2]
+		}
 	}
 	h := http.Header{}
 	if enc := s.encoding[url]; enc != "" {
@@ -326,7 +333,7 @@ func init() {
 		Real:  []string{"vgirpc dispatch paths on pipe and HTTP with the checked allocator (alloc_leakcheck.go), external upload/resolve, cast, caps"},
 		Stub:  []string{"transports", "protocol client", "object store / origin with injected upload and fetch failures", "scripted handlers (allocate with their own allocator)"},
 		Quick: 600, Thorough: 60000,
-		FaultKinds: []string{"upload-failure", "fetch-error", "fetch-status", "fetch-truncated", "external-request-pointer", "external-input-pointer", "client-hangup-during-turn", "client-cancel", "malformed-request", "peer-hangup-mid-response"},
+		FaultKinds: []string{"upload-failure", "fetch-error", "fetch-status", "fetch-truncated", "fetch-truncated-in-trailer", "external-request-pointer", "external-input-pointer", "client-hangup-during-turn", "client-cancel", "malformed-request", "peer-hangup-mid-response"},
 		Assumptions: []string{"the balance is read through the package's own LeakCheckSummary", "on a pipe the balance is judged at the end of the session (while a call is in flight the server may still hold batches); shared-memory resolution is exercised under C36"},
 	}
 }
